@@ -1,7 +1,7 @@
 /-
   C05 — ITS outbound transfers conserve value and emit a faithful cross-chain message.
 -/
-import Axelar.Proofs.ItsMonad
+import Axelar.Proofs.ItsEvents
 namespace Axelar.Props.C05
 open Axelar Axelar.ItsW Axelar.Its Codec
 
@@ -132,6 +132,60 @@ theorem payload_is_the_transfer_record (C : Crypto) (cx : ICtx) (tid src chain a
           obtain ⟨u, t1⟩ := r
           cases u
           exact ⟨payload, he, by simpa using ha, by simpa using hp, t1, hr⟩
+    · simp [hp] at h
+  · simp [ha] at h
+
+
+/-! ### The emitted message, exactly -/
+
+/-- **A successful outbound transmission (EGLD or no gas) emits exactly**: for a non-zero gas value
+    one gas-paid event to the gas service for the routed destination and the hash of the routed
+    payload, with the caller (the sender) as refund address; then ONE gateway contract-call event
+    whose destination is what the trusted table prescribes (the trusted peer, or the hub with the
+    wrapped payload), whose payload is the routed ABI payload and whose payload hash is the hash
+    of that payload; then the service's own transfer event.  And exactly the gas value moves
+    from the service to the gas service. -/
+theorem outbound_message_events (C : Crypto) (cx : ICtx) (tid src chain addr : Bytes) (tg : TransferAndGas)
+    (data : Bytes) (t t' : Tx) (hgas : tg.gasToken = none)
+    (hkgs : t.w.kind t.w.its.gasService = some .gasService) (hkgw : t.w.kind t.w.its.gateway = some .gateway)
+    (h : transmitInterchainTransfer C cx tid src chain addr tg data t = some ((), t')) :
+    ∃ payload dc da p,
+      Abi.Transfer.encode ⟨0, tid, src, addr, tg.transferAmount, data⟩ = .ok payload ∧
+      getCallParams t.w.its chain payload = some (dc, da, p) ∧
+      t'.evs = t.evs ++
+        (if tg.gasAmount > 0 then [⟨t.w.its.gasService, "native_gas_paid_for_contract_call_event", [cx.self, dc, da],
+            [GasService.nativeGasPaidData (C.H p) tg.gasAmount cx.caller]⟩] else []) ++
+        [⟨t.w.its.gateway, "contract_call_event", [cx.self, dc, da, C.H p], [p]⟩] ++
+        [⟨cx.self, "interchain_transfer_event", [tid, src, if data.isEmpty then zeroHash else C.H data],
+            [nestBuf chain ++ nestBuf addr ++ nestBig tg.transferAmount]⟩] ∧
+      (∀ x, World.egld t'.w x = World.movedEgld t.w cx.self t.w.its.gasService tg.gasAmount x) := by
+  simp only [transmitInterchainTransfer, run_bind, run_require] at h
+  by_cases ha : (!addr.isEmpty) = true
+  · simp only [ha, if_true] at h
+    by_cases hp : decide (tg.transferAmount > 0) = true
+    · simp only [hp, if_true] at h
+      cases he : Abi.Transfer.encode ⟨Generated.MESSAGE_TYPE_INTERCHAIN_TRANSFER, tid, src, addr, tg.transferAmount, data⟩ with
+      | error e => simp [he] at h
+      | ok payload =>
+        simp only [he, run_bind] at h
+        cases hr : routeMessage C cx chain payload tg.gasToken tg.gasAmount t with
+        | none => simp [hr] at h
+        | some r =>
+          obtain ⟨u, t1⟩ := r
+          simp only [hr, run_emit, Option.some.injEq, Prod.mk.injEq, true_and] at h
+          subst h
+          -- the route
+          simp only [routeMessage, run_bind, run_getI] at hr
+          cases hg : getCallParams t.w.its chain payload with
+          | none => simp [hg] at hr
+          | some v =>
+            obtain ⟨dc, da, p⟩ := v
+            simp only [hg] at hr
+            rw [hgas] at hr
+            have hev := callContract_native_events C cx dc da p tg.gasAmount t t1 hkgs hkgw hr
+            obtain ⟨_, hbal⟩ := callContract_native_egld C cx dc da p tg.gasAmount t t1 hkgs hkgw hr
+            refine ⟨payload, dc, da, p, he, hg, ?_, hbal⟩
+            simp only [hev]
     · simp [hp] at h
   · simp [ha] at h
 
